@@ -4,6 +4,7 @@ import H4.Driver.Slab
 import H4.Driver.Conv
 import H4.Driver.HPIO
 import H4.Driver.Atom
+import H4.Driver.Chunk
 open H4.Driver
 
 /-- state of every stateful engine; reset at each `CASE` line -/
@@ -11,6 +12,7 @@ structure World where
   dummy : Nat := 0
   hp : H4.HPIO.HP := H4.HPIO.opened []
   atom : H4.Atom.State := H4.Atom.State.init
+  chunk : ChunkSt := {}
 
 def stepWorld (w : World) (engine : String) (args : List String) : World × String :=
   match engine with
@@ -18,6 +20,7 @@ def stepWorld (w : World) (engine : String) (args : List String) : World × Stri
   | "sd" => (w, stepSd args)
   | "conv" => (w, stepConv args)
   | "atom" => let (a, out) := stepAtom w.atom args; ({ w with atom := a }, out)
+  | "chunk" => let r := stepChunk w.chunk args; ({ w with chunk := r.1 }, r.2)
   | "hp" => let (h, r) := stepHp w.hp args; ({ w with hp := h }, r)
   | _ => (w, "bad-engine")
 
